@@ -1310,7 +1310,7 @@ class Proto:
                 raise Unknown("fence event in a loop header at line %s" % st.get("l"))
             inner = self.stmt(st.get("body"))
             if any(i["k"] == "task" for i in inner):
-                return [{"k": "work", "loop": st, "inner": [i for i in inner if i["k"] != "task"], "tasks": [i for i in inner if i["k"] == "task"], "l": st.get("l")}]
+                return [{"k": "work", "loop": st, "inner": [i for i in inner if i["k"] != "task"], "tasks": [i for i in inner if i["k"] == "task"], "l": st.get("l"), "fx": self.fx}]
             if inner:
                 return [{"k": "loop", "loop": st, "items": inner, "l": st.get("l")}]
             return []
@@ -1372,12 +1372,45 @@ def flatten_round(items):
                 y["forall"] = it["loop"]
                 out.append(y)
         elif it["k"] == "if":
-            if it["then"] or it["else"]:
+            sub = it["then"] + it["else"]
+            if all(x["k"] == "work" and not x["inner"] for x in sub):
+                # a conditionally skipped element loop (e.g. empty range) exchanges no fence events
+                for x in sub:
+                    out.append({"k": "work", "l": x.get("l"), "inner": [], "loop": x.get("loop"), "fx": x.get("fx")})
+            elif sub:
                 raise Unknown("conditional fence events at line %s" % it.get("l"))
         elif it["k"] == "work":
-            out.append({"k": "work", "l": it.get("l"), "inner": it["inner"]})
+            out.append({"k": "work", "l": it.get("l"), "inner": it["inner"], "loop": it.get("loop"), "fx": it.get("fx")})
         else:
             out.append(it)
+    return out
+
+
+def round_skips(fx, round_loop, seq, role):
+    """events of the round that some path from the start of one iteration of the round loop back to
+    the loop header (= into the next round) does not pass; paths ending in `return false` / noreturn
+    are failure exits and exempt.  For-all-workers events count as passed when their loop is."""
+    H = fx.header_block(round_loop)
+    if H is None:
+        raise Unknown("header of the round loop not found")
+    body_entry = fx.cfg.blocks[H]["succ"][0]
+    fails = [n["i"] for n in fx.fn.nodes() if n.get("k") == "Return" and strip(n.get("e") or {}).get("k") == "Bool" and strip(n["e"])["v"] is False]
+    nr = fx.cfg.noreturn_blocks()
+    out = []
+    for e in seq:
+        if e["k"] not in ("wait", "open", "close"):
+            continue
+        if e.get("inlined") or e.get("fx") is not fx:
+            raise Unknown("fence event at line %s lives in a helper; per-iteration must-pass not evaluated" % e.get("l"))
+        if e.get("forall") is not None:
+            hb_ = fx.header_block(e["forall"])
+            if hb_ is None:
+                raise Unknown("for-all loop header not found")
+            r = fx.reach((body_entry, 0), target_blocks=[H], avoid_blocks=set([hb_]) | nr, avoid_stmts=fails)
+        else:
+            r = fx.reach((body_entry, 0), target_blocks=[H], avoid_blocks=nr, avoid_stmts=[e["node"]["i"]] + fails)
+        if r is not None:
+            out.append("the %s can start the next round without having passed %s(%s) at line %s" % (role, e["k"], e["f"] if isinstance(e["f"], str) else e["f"][1], e["l"]))
     return out
 
 
@@ -1631,6 +1664,12 @@ def rule_protocol(ck, job, vctx, enum, can, inv_enum):
                     else:
                         raise Unknown("several round loops in %s" % variant)
                     rounds = 2
+                    # every iteration of a round loop performs the whole fence sequence of the round
+                    sk = round_skips(fxa, mround[0]["loop"], m_seq, "master")
+                    if len(wround) == 1:
+                        sk += round_skips(wfx, wround[0]["loop"], w_seq, "worker")
+                    if sk:
+                        viol.append("; ".join(sk[:3]) + ": the two roles get out of step by one round (a worker runs a colour ahead while other workers still scatter the previous colour, and later blocks on a fence the master has already consumed)")
                 else:
                     m_seq = flatten_round(mitems)
                     if wround:
@@ -2578,7 +2617,7 @@ RULES = [
     ("E14.combine-locked", "task->combine() is called with a lock on the shared thread mutex held (RAII lock object in scope and dominating the call, or lock()/unlock() around it) in every worker variant that the construction contexts can reach with more than one worker. Broken for: jobs with need_combine (integrals, error norms) on >= 2 threads: lost updates in the reduction.", 13),
     ("E14.shared-mutex", "every Worker construction passes the assembler's own std::mutex member as thread_mutex. Broken for: need_combine jobs on >= 2 threads (each worker locking its own mutex excludes nobody).", 10),
     ("E13.dispatch-asserts", "for every (id, num_workers, strategy) context that assemble()/assemble_master() can construct (bounded enumeration) Worker::operator() dispatches to a variant whose own XASSERTs on id/num_workers hold. Broken for: meshes/settings that resolve to exactly one (or zero) worker threads: the assembly aborts.", 12),
-    ("E14.protocol", "for every strategy that can have workers and the worker variant operator() selects for the job's need_scatter flag: the master branch of assemble() and the worker variant exchange fence events such that every wait has an open in the other role in the same round, the happens-before graph is acyclic, no open is erased by a close before its waiter passed, no stale open of an earlier phase satisfies a wait, master and worker run the same number of rounds, colour rounds are ordered through the master. Broken for: the named strategy/job class with >= 2 workers (deadlock or two colours scattered concurrently).", 15),
+    ("E14.protocol", "for every strategy that can have workers and the worker variant operator() selects for the job's need_scatter flag: the master branch of assemble() and the worker variant exchange fence events such that every wait has an open in the other role in the same round, the happens-before graph is acyclic, no open is erased by a close before its waiter passed, no stale open of an earlier phase satisfies a wait, master and worker run the same number of rounds, every iteration of a round loop passes the whole fence sequence of the round on every path that continues with the next round (no `continue` around the handshake), colour rounds are ordered through the master. Broken for: the named strategy/job class with >= 2 workers (deadlock or two colours scattered concurrently).", 15),
     ("E7.layered-wait-before-scatter", "layered variant: in the loop iteration `element == wait position` every path to task->scatter() passes wait() on fence id+1. Broken for: layered strategies, >= 2 threads, scattering jobs: thread id scatters its last layer while thread id+1 scatters the adjacent first layer.", 3),
     ("E7.layered-open-after-scatter", "layered variant: open(true) of fence id is reachable only after scatter() of the iteration `element == open position` and is passed on every continuing path of that iteration. Broken for: layered strategies, >= 2 threads: thread id-1 enters its last layer too early (race) or waits forever.", 3),
     ("E5.layered-positions", "layered variant, per construction context: range = [L(T(id-1)), L(T(id))) (consecutive thread_layers entries), wait position = L(T(id)-1) for id < n and none for id = n, open position = L(T(id-1)+1)-1 for id >= 2; prepare() gets element_indices[position]. Broken for: layered strategies (cells assembled twice/never, handshake at the wrong cell, last thread waiting on a fence nobody opens).", 15),
@@ -2589,6 +2628,7 @@ RULES = [
     ("E7.join-all-exits", "assemble(): every path from the creation of the threads to a normal return passes a loop joining every thread and then clears the thread vector. Broken for: any threaded job (result used while workers still scatter; next job aborts).", 5),
     ("E7.fences-closed-before-start", "assemble(): a loop closing every fence dominates the creation of the worker threads. Broken for: the second job on one assembler (fences left open by the first job release workers early).", 5),
     ("E2.layer-sort-range", "_build_layers (layered_sorted): every std::sort/stable_sort on the element list sorts exactly one layer - from the layer boundary pushed last to the current element count, or [layers(k), layers(k+1)). Broken for: layered_sorted with >= 2 threads (cells migrate between Cuthill-McKee layers, adjacent cells are scattered concurrently).", 2),
+    ("E2.cell-index-kind", "DomainAssembler set-up functions: containers indexed by mesh cell numbers (the mesh's index sets, the element mask sized by get_num_elements()) are subscripted with a mesh cell number - an entry of _element_indices, a mesh-part target index, a loop variable bounded by the number of mesh cells - never with a position in the list of selected cells (loop variable bounded by _element_indices.size()). Broken for: assembly on a proper cell subset with >= 2 threads (adjacency graph of the wrong cells, races).", 4),
     ("E13.worker-count-wrap", "work-distribution builders: a loop whose start value subtracts from the unsigned worker count cannot wrap for any admissible count the preceding assignment can produce (bounded enumeration, dominating guards respected). Broken for: meshes so small that zero workers result.", 1),
 ]
 
@@ -2659,6 +2699,11 @@ def run(tier):
             for nf in sorted(x for x in nfields if x):
                 rule_count_wrap(ck, facts, nf)
             lf = {this_field(s_.arg.get("layer_elements")) for j_ in jobs for s_ in j_.sites if s_.where == "assemble"} - {None}
+            ef = {this_field(s_.arg.get("element_indices")) for j_ in jobs for s_ in j_.sites if s_.where == "assemble"} - {None}
+            if len(ef) == 1:
+                rule_cell_index_kind(ck, facts, ef.pop())
+            else:
+                ck.incomplete("E2.cell-index-kind", "element index member not identified")
             if len(lf) == 1:
                 rule_layer_sort(ck, facts, lf.pop())
             else:
@@ -2788,3 +2833,101 @@ def rule_layer_sort(ck, facts, layer_field):
                   fn.file, srt.get("l"))
         except (Unknown, StopIteration) as e:
             ck.incomplete(R, "%s: %s" % (key, e))
+
+
+# -------------------------------------------------------------------------------------------------
+# index kinds: mesh-cell indexed containers are subscripted with mesh-cell numbers
+# -------------------------------------------------------------------------------------------------
+
+def rule_cell_index_kind(ck, facts, elem_field):
+    """Two index spaces meet in DomainAssembler: *positions* 0..nel-1 in the list of selected cells
+    (this->_element_indices, node numbers of the adjacency graphs) and *mesh cell numbers* (entries of
+    _element_indices, subscripts of the mesh's index sets and of the element mask)."""
+    R = "E2.cell-index-kind"
+    fns = [f for f in facts.functions if re.search(r"DomainAssembler<", f.cls) and "::Worker<" not in f.cls and "::DegreeCompare" not in f.cls and "::ThreadStats" not in f.cls
+           and f.cfg is not None and f.body is not None]
+    ctor = next((f for f in facts.functions if f.d.get("ctor") and re.search(r"DomainAssembler<[^:]*(::[^W][^:]*)*>$", f.cls) and f.cls.count("::Worker<") == 0 and f.d.get("inits")), None)
+    # member containers sized by the number of mesh cells
+    mesh_sized = set()
+    for f in facts.functions:
+        if f.d.get("ctor") and re.search(r"DomainAssembler<", f.cls) and "::Worker<" not in f.cls:
+            for i in f.d.get("inits", []) or []:
+                if i.get("member") and any(x.get("k") == "MCall" and x.get("n") == "get_num_elements" for x in walk(i.get("init") or {})):
+                    mesh_sized.add(i["member"])
+    MESH, POS, OTHER = "mesh-cell", "position", "other"
+
+    def bound_kind(fn, b, inits, depth=0):
+        b = strip(b)
+        if b.get("k") == "Ref" and b.get("dk") == "local" and b.get("d") in inits and depth < 4:
+            return bound_kind(fn, inits[b["d"]], inits, depth + 1)
+        if b.get("k") == "MCall" and b.get("n") == "get_num_elements":
+            return MESH
+        if b.get("k") == "MCall" and b.get("n") == "size" and this_field(b.get("obj")) in mesh_sized:
+            return MESH
+        if b.get("k") == "MCall" and b.get("n") == "size" and this_field(b.get("obj")) == elem_field:
+            return POS
+        if b.get("k") == "MCall" and b.get("n") in ("get_num_nodes_domain",):
+            return POS
+        return None
+
+    def kind(fx, e, inits, depth=0):
+        """(kind, explanation) of an index expression, or (None, why) if not inferable"""
+        fn = fx.fn
+        e = strip(e)
+        if depth > 5:
+            return None, "too deep"
+        if e.get("k") in ("MCall", "OpCall"):
+            obj = e.get("obj") if e["k"] == "MCall" else (e.get("a") or [None])[0]
+            nm = e.get("n") if e["k"] == "MCall" else ("at" if e.get("op") == "[]" else None)
+            if nm in ("at", "operator[]") and this_field(obj) == elem_field:
+                return MESH, "entry of %s" % elem_field
+            if nm in ("at", "operator[]") and "TargetSet" in (e.get("ccls") or ""):
+                return MESH, "target index of a mesh part"
+            return None, "value of `%s`" % render(e)
+        if e.get("k") == "Ref" and e.get("dk") == "param":
+            return "contract", "parameter `%s`" % e["n"]
+        if e.get("k") == "Ref" and e.get("dk") == "local":
+            if e["d"] in inits:
+                return kind(fx, inits[e["d"]], inits, depth + 1)
+            # loop variable: kind of its upper bound
+            ks = set()
+            for lp in fx.fn.nodes():
+                if lp.get("k") in ("For", "While") and lp.get("c") is not None:
+                    for c in walk(lp["c"]):
+                        if c.get("k") == "Bin" and c.get("op") in ("<", "<=", "!=") and strip(c["lhs"]).get("k") == "Ref" and strip(c["lhs"]).get("d") == e["d"]:
+                            ks.add(bound_kind(fn, c["rhs"], inits))
+            if len(ks) == 1 and None not in ks:
+                k_ = ks.pop()
+                return k_, "loop variable `%s` bounded by the number of %s" % (e["n"], "mesh cells" if k_ == MESH else "selected cells (%s.size())" % elem_field)
+            return None, "loop variable `%s` with bound(s) of unknown kind" % e["n"]
+        return None, "expression `%s`" % render(e)
+
+    seen = 0
+    for fn in fns:
+        fx = FX(fn)
+        inits = single_def_inits(fn)
+        cnt = {}
+        for n in fn.nodes():
+            sub = None
+            what = None
+            if n.get("k") == "OpCall" and n.get("op") == "[]" and (n.get("ccls") or "").startswith("FEAT::Geometry::IndexSet<") and len(n.get("a", [])) == 2:
+                sub, what = n["a"][1], "mesh index set `%s`" % render(strip(n["a"][0]))
+            elif n.get("k") in ("MCall", "OpCall") and this_field(n.get("obj") if n["k"] == "MCall" else (n.get("a") or [None])[0]) in mesh_sized:
+                if n["k"] == "MCall" and n.get("n") == "at" and len(n.get("a", [])) == 1:
+                    sub, what = n["a"][0], "mesh-sized member `%s`" % this_field(n.get("obj"))
+                elif n["k"] == "OpCall" and n.get("op") == "[]" and len(n.get("a", [])) == 2:
+                    sub, what = n["a"][1], "mesh-sized member `%s`" % this_field(n["a"][0])
+            if sub is None:
+                continue
+            cnt[what] = cnt.get(what, 0) + 1
+            key = "%s/%s#%d" % (fn.name, what.split("`")[1], cnt[what])
+            k_, why = kind(fx, sub, inits)
+            if k_ is None:
+                ck.incomplete(R, "%s: kind of subscript `%s` not inferable (%s)" % (key, render(sub), why))
+                continue
+            seen += 1
+            ok = k_ in (MESH, "contract")
+            ck.ob(R, key, ok,
+                  "%s is subscripted with a mesh cell number (%s)" % (what, why) if ok
+                  else "%s is indexed by mesh cell numbers but is subscripted with `%s`, a %s (%s): for a proper cell subset (add_element/add_mesh_part + compile) the data of the wrong cells is read - the neighbour graph, hence layers and colours, no longer describe the selected cells and vertex-adjacent cells are scattered concurrently" % (what, render(sub), k_, why),
+                  fn.file, n.get("l"), trivial=(k_ == "contract"))
